@@ -24,13 +24,16 @@ package node
 //@   requires forall r int :: __in(r, frame.PeerSets) ==> len(frame.PeerSets[r]) < 2147483648
 //@   ensures[accept-peers-hash]  ret0 == nil ==> __seqeq(peers.PSHashOf(old(frame.Peers)), old(block.Body.PeersHash))
 //@   ensures[accept-frame-hash]  ret0 == nil ==> __seqeq(old(hg.FrameHashOf(*frame)), old(block.Body.FrameHash))
-//@   ensures[accept-signatures]  ret0 == nil ==> (exists ps *peers.PeerSet :: ps != nil && __eq(old(ps.Peers), old(frame.Peers)) && old(ps.WF()) && old(hg.SignedByMoreThanThird(block, ps)))
+//@   call CheckBlock assert[checked-set]     __arg(0) == block && __arg(1) == peerSet && peerSet != nil && __eq(peerSet.Peers, frame.Peers) && peerSet.WF()
+//@   ensures[accept-signatures]  ret0 == nil ==> __called("CheckBlock") && __lastret("CheckBlock", 0) == nil
 //@   ensures[validators-latest] ret0 == nil ==> c.validators != nil && ((forall r int :: __in(r, frame.PeerSets) ==> r <= frame.Round) ==> __eq(c.validators.Peers, frame.Peers)) && (forall r int :: __in(r, frame.PeerSets) && r > frame.Round ==> (exists m int :: __in(m, frame.PeerSets) && m >= r && (forall r2 int :: __in(r2, frame.PeerSets) ==> r2 <= m) && __eq(c.validators.Peers, frame.PeerSets[m])))
 //@   ensures[trusted-signer]    ret0 == nil ==> (exists v string :: (exists k string :: __in(k, old(block.Signatures)) && v == common.Enc(common.KeyBytesOf(k)) && hg.BlockSigOK(block, common.KeyBytesOf(k), old(block.Signatures[k]))) && (__in(v, old(c.peers.ByPubKey)) || __in(v, old(c.genesisPeers.ByPubKey)) || __in(v, old(c.validators.ByPubKey))))
 //@   loop 1 invariant[peers]    forall i int :: 0 <= i && i < __idx() ==> frame.Peers[i] != nil
 //@   loop 2 invariant[sets]     forall r int :: __vis(r) ==> (forall i int :: 0 <= i && i < len(frame.PeerSets[r]) ==> frame.PeerSets[r][i] != nil)
 //@   loop 3 invariant[set]      forall i int :: 0 <= i && i < __idx() ==> ps[i] != nil
+//@   loop 4 invariant[wf]       c.validators != nil && c.validators.WF() && c.peers != nil && c.peers.WF()
 //@   loop 4 invariant[latest]   c.validators != nil && lastRound >= frame.Round && (forall r int :: __vis(r) ==> r <= lastRound) && ((lastRound == frame.Round && __eq(c.validators.Peers, frame.Peers)) || (lastRound > frame.Round && __in(lastRound, frame.PeerSets) && __eq(c.validators.Peers, frame.PeerSets[lastRound])))
+//@   ensures[sets-wf]           ret0 == nil ==> c.validators != nil && c.validators.WF() && c.peers != nil && c.peers.WF()
 //@   ensures[refused-untouched]  ret0 != nil && !__called("Reset") ==> __unchanged(c.validators, c.peers, c.peerSelector, c.head, c.seq, c.hg)
 //@   ensures[refused-untouched-hg]  ret0 != nil && !__called("Reset") ==> __eq(c.hg.Snapshot(), old(c.hg.Snapshot()))
 
@@ -47,7 +50,8 @@ package node
 //@   ensures[resp] ret0 == nil || (len(ret0.Frame.Peers) < 2147483648 && (forall r int :: __in(r, ret0.Frame.PeerSets) ==> len(ret0.Frame.PeerSets[r]) < 2147483648))
 
 //@ func (n *Node) fastForward() error
-//@   requires n != nil && n.core != nil && n.core.hg != nil && n.core.validator != nil && n.proxy != nil
+//@   requires n != nil && n.core != nil && n.core.hg != nil && n.core.validator != nil && n.proxy != nil && n.core.promises != nil
+//@   call processAcceptedInternalTransactions assume[sizes-bounded] len(resp.Block.Body.InternalTransactionReceipts) < 1000000000 && len(n.core.validators.Peers) < 1000000000 && len(n.core.peers.Peers) < 1000000000
 //@   call Restore assert[restore-after-check] __called("fastForward") && __lastret("fastForward", 0) == nil
 
 // ------------------------------------------------------------------------------------------------
@@ -55,7 +59,7 @@ package node
 
 //@ func (c *core) signBlock(block *hg.Block) (hg.BlockSignature, error)
 //@   requires c != nil && c.hg != nil && c.validator != nil && c.validator.Key != nil && block != nil && block.Signatures != nil
-//@   modifies block.Signatures[*], hg.G_blocks(c.hg.Store), hg.G_bodies(c.hg.Store), hg.G_fault(c.hg.Store)
+//@   modifies block.Signatures[*], hg.G_blocks(c.hg.Store), hg.G_bodies(c.hg.Store), hg.G_fault(c.hg.Store), hg.G_lastBlock(c.hg.Store)
 //@   ensures[signed] ret1 == nil ==> hg.BlockSignedBy(c.validator.Key, block, ret0.Signature) && ret0.Index == block.Body.Index
 //@   ensures[stored] ret1 == nil ==> __eq(hg.G_bodies(c.hg.Store)[block.Body.Index], block.Body)
 //@   ensures[body]   __eq(block.Body, old(block.Body))
